@@ -19,7 +19,7 @@ from props import store_common as sc
 def run(ctx):
     ctx.static_and_proofs("store")
     quick = ctx.tier == "quick"
-    args = ["-oplists", "60" if quick else "900", "-singles", "72" if quick else "900", "-paged", "9" if quick else "120", "-regchange", "8" if quick else "120"]
+    args = ["-oplists", "60" if quick else "900", "-singles", "72" if quick else "900", "-paged", "9" if quick else "120", "-regchange", "8" if quick else "120", "-alone", "6" if quick else "60"]
     if os.environ.get("C13_BACKENDS"):
         args += ["-backends", os.environ["C13_BACKENDS"]]
     cases = ctx.harness("c13", args)
@@ -52,6 +52,9 @@ def run(ctx):
         "the abstraction of Go values to Coq terms done by the harness (strings/uuids/values interned per case; times as UnixNano with 0 = zero time; "
         "typed values by Go type + canonical JSON after nil->empty normalisation of maps/slices INSIDE request/response values)",
         "nil vs empty child slices (Blocks/Sequences/Actions/Attempts) are identified; Meta nil == empty",
+        "strings that are not valid UTF-8: the JSON codec (go-json-experiment) refuses them inside requests, responses and error messages "
+        "(Create / UpdateAction fail and change nothing: modelled as enc failing) and, on cosmosdb, as names / descriptions (create_checked); "
+        "sqlite TEXT columns store them byte for byte",
         "generated instants are zero or after 1970 (the sqlite codec maps earlier instants to the zero time by design)",
         "cosmosdb only through the package's fake client: objects are compared keyed by id (the fake ignores ORDER BY); order is tied by the "
         "emitted items' pos (C14 check, VerifPlanItems) and Cosmos is trusted to honour ORDER BY c.pos",
